@@ -79,6 +79,13 @@ func (c *MemConn) Drain() ([]byte, []int) {
 	return o, u
 }
 
+// Units returns the number of Write calls since the last Drain.
+func (c *MemConn) Units() int {
+	c.mu.Lock()
+	defer c.mu.Unlock()
+	return len(c.units)
+}
+
 func (c *MemConn) Closed() bool {
 	c.mu.Lock()
 	defer c.mu.Unlock()
